@@ -63,7 +63,7 @@ CHECKS = {
    note="Rendered templates are trimmed and none/null/nil collapse by design; R-SAN, R-SIP, R-CAL trusted.",
    technique="exhaustive enumeration of objects x templates and function arguments against reference models", ref="C15"),
  "C02": dict(cat="model_checking",
-   text="Two-layer explicit-state exploration of repository histories: (A) BFS over commit / branch&checkout / checkout / merge (fast-forward or true merge) from a one-commit repository, deduplicated on (DAG, branch refs), bounded by commits and branches; (B) every placement of up to 2 tags from a version/non-version/annotated/PEP-440-only alphabet on any commits x HEAD at every branch tip and detached at every commit x committer-date modes (increasing, decreasing, zig-zag, all equal); (C) every subset of 8 tag spellings on one commit x HEAD positions x the 3 input formats; (D) 15 work-tree states (modified, staged, untracked incl. nested, deleted, renamed, mode change, ignored file / directory, empty directory, staged-then-reverted); (E) 11 branch names (with '/', '.', non-ASCII, equal to a version tag, a non-version tag or a ref-namespace word) x a tag of the same short name x HEAD positions. Every commit carries an author date 500 days away from its committer date. Every state is materialised in real git (fast-import), conformance-checked against the model with git commands zerv does not use, then `zerv version -C` is judged against R-GIT: nearest validly tagged commit, highest tag (majority rule in auto mode), distance, dirty, branch, hashes, times, and 'no valid tag' reported as such.",
+   text="Two-layer explicit-state exploration of repository histories: (A) BFS over commit / branch&checkout / checkout / merge (fast-forward or true merge) from a one-commit repository, deduplicated on (DAG, branch refs), bounded by commits and branches; (B) every placement of up to 2 tags from a version/non-version/annotated/PEP-440-only alphabet on any commits x HEAD at every branch tip and detached at every commit x committer-date modes (increasing, decreasing, zig-zag, all equal); (C) every subset of 8 tag spellings on one commit x HEAD positions x the 3 input formats; (D) 15 work-tree states (modified, staged, untracked incl. nested, deleted, renamed, mode change, ignored file / directory, empty directory, staged-then-reverted); (E) 11 branch names (with '/', '.', non-ASCII, equal to a version tag, a non-version tag or a ref-namespace word) x a tag of the same short name x HEAD positions. Every commit carries an author date 500 days away from its committer date. Every state is materialised in real git (fast-import), conformance-checked against the model with git commands zerv does not use, then `zerv version -C` is judged against R-GIT: nearest validly tagged commit, highest tag (auto mode: highest under either format accepting it), distance, dirty, branch, hashes, times, and 'no valid tag' reported as such.",
    note="R-GIT oracle; choice among equal-precedence tags / among members of the nearest-tag antichain left open; octopus merges, shallow clones, worktrees, submodules out of scope; wall cap recorded in evidence (exhaustive=false if hit).",
    technique="explicit-state BFS over repository operations x labelings, each state materialised in real git and judged by a reference model", ref="C02"),
  "C13": dict(cat="fault_enumeration",
